@@ -1041,7 +1041,7 @@ func (vc *VC) strFromBytes(st *State, elem types.Type, v Val) string {
 	if _, ok := vc.decls["gs.from"]; !ok {
 		vc.declare("gs.from", "(declare-fun gs.from ((Array "+i+" "+bs+") "+i+" "+i+") Str)")
 		vc.axiom("(forall ((a (Array " + i + " " + bs + ")) (o " + i + ") (n " + i + ")) (! (=> " + vc.ile(vc.idx(0), "n") + " (= (gs.len (gs.from a o n)) n)) :pattern ((gs.from a o n))))")
-		vc.axiom("(forall ((a (Array " + i + " " + bs + ")) (o " + i + ") (n " + i + ") (k " + i + ")) (! (=> (and " + vc.ile(vc.idx(0), "k") + " " + vc.ilt("k", "n") + ") (= (gs.at (gs.from a o n) k) (select a " + vc.iadd("o", "k") + "))) :pattern ((gs.at (gs.from a o n) k))))")
+		vc.axiom("(forall ((a (Array " + i + " " + bs + ")) (o " + i + ") (n " + i + ") (k " + i + ")) (! (=> (and " + vc.ile(vc.idx(0), "k") + " " + vc.ilt("k", "n") + ") (= (gs.at (gs.from a o n) k) (select a " + vc.iadd("o", "k") + "))) :pattern ((gs.at (gs.from a o n) k)) :pattern ((gs.from a o n) (select a " + vc.iadd("o", "k") + "))))")
 	}
 	arr := vc.elemArray(st, elem, v.C[0])
 	if src, ok := vc.strOfArr[arr]; ok && v.C[1] == vc.idx(0) && v.C[2] == "(gs.len "+src+")" {
